@@ -24,7 +24,11 @@ this prelude, on every run. What is *assumed* about Go here (the translator's se
   (`ValidReplayer.Now`) is a computation `GoM α`;
 * an iterator `func(yield func(A, B) bool)` that is applied to a function literal on the spot (`q.each(i)(func…)`) is a
   function of what the literal does with its state — the variables it assigns outside itself — and that state;
-* an interface value whose methods are called (`MessageWriter`) is a state and its methods' answers (`MsgWriter`).
+* an interface value whose methods are called (`MessageWriter`) is a state and its methods' answers (`MsgWriter`);
+* `int64` / `time.Duration` multiplication wraps (`wrapInt64`); `strconv.ParseInt(s, 10, 64)`, the one use of
+  `strings.IndexFunc` (first rune outside an ASCII range) and `utf8.DecodeRuneInString` (approximate: only error texts
+  depend on it) are re-modelled below; an error value built from a struct (`&UnmarshalError{…}`) is its type name and
+  reason text (`errStruct`); a `nil` assigned to a slice that is never compared with `nil` is the empty list.
 -/
 namespace GoSSE.GoRT
 open GoSSE
@@ -153,6 +157,44 @@ def strconvParseUint (s : Bytes) : UInt64 × Option String :=
   if s.isEmpty then (0, some "strconv.ErrSyntax") else
   let r := parseUintDigits s 0
   (UInt64.ofNat r.1, r.2)
+
+/-- `int64` (and `time.Duration`) multiplication: two's complement wrap-around -/
+def wrapInt64 (x : Int) : Int := ((x + 9223372036854775808) % 18446744073709551616) - 9223372036854775808
+
+/-- the digit loop of `strconv.ParseInt`'s magnitude (`ParseUint` with cutoff 2^64) -/
+def parseIntDigits : Bytes → Nat → Option Nat
+  | [], n => some n
+  | c :: t, n => if !(48 ≤ c && c ≤ 57) then none else parseIntDigits t (n * 10 + (c.toNat - 48))
+
+/-- `strconv.ParseInt(s, 10, 64)`: an optional sign, then digits; a non-digit (or nothing) is a syntax error with
+value 0, a magnitude out of the int64 range a range error with the nearest bound -/
+def strconvParseInt (s : Bytes) : Int × Option String :=
+  let neg := s.head? == some 45
+  let body := if s.head? == some 43 || s.head? == some 45 then s.drop 1 else s
+  if body.isEmpty then (0, some "strconv.ErrSyntax") else
+  match parseIntDigits body 0 with
+  | none => (0, some "strconv.ErrSyntax")
+  | some n =>
+    if neg then (if n ≤ 9223372036854775808 then (-(n : Int), none) else (-9223372036854775808, some "strconv.ErrRange"))
+    else (if n ≤ 9223372036854775807 then ((n : Int), none) else (9223372036854775807, some "strconv.ErrRange"))
+
+/-- `strings.IndexFunc(s, func(r rune) bool { return r < lo || r > hi })` for ASCII bounds `lo ≤ hi < 128`: the index of
+the first byte outside `[lo, hi]` (a multi-byte or invalid sequence starts with a byte ≥ 0x80 and decodes to a rune above
+`hi`; the bytes before it are single-byte runes), or −1 -/
+def stringsIndexOutside (s : Bytes) (lo hi : Nat) : Int :=
+  let i := s.findIdx (fun b => b.toNat < lo || b.toNat > hi)
+  if i < s.length then (i : Int) else -1
+
+/-- `utf8.DecodeRuneInString`, approximately (exact for ASCII; anything else is reported as U+FFFD of width 1): the
+translated code uses its result inside error texts only, and error texts are not modelled -/
+def utf8DecodeRuneApprox (s : Bytes) : Int × Int :=
+  match s with
+  | [] => (65533, 0)
+  | b :: _ => if b.toNat < 128 then ((b.toNat : Int), 1) else (65533, 1)
+
+/-- an error value of a struct type (`&UnmarshalError{Reason: …}`): its type name and the text of its reason -/
+def errStruct (name : String) (reason : Option String) : Option String :=
+  some (name ++ ": " ++ reason.getD "")
 
 /-- `strings.IndexByte` -/
 def stringsIndexByte (s : Bytes) (c : UInt8) : Int :=
